@@ -172,3 +172,20 @@ Proof.
     + intros lines Hw. assert (E : exists l0, rxn_lines_v3000 true ex_rxn3 = Ok l0 /\ (length l0 < 150)%nat) by (eexists; split; [vm_compute; reflexivity | cbn; lia]).
       destruct E as [l0 [E0 El]]. rewrite E0 in Hw. apply MdlFileMol.Ok_inj in Hw. subst l0. cbn. lia.
 Qed.
+
+Example rxn_file_examples :
+  (exists texts, mapM (fun x => rdf_rxn_text true (ri_rxn x) (meta_of (ri_entries x))) [ex_rxn_in2] = Ok texts /\
+     rdf_read (option str) ex_build ex_build_rxn 200 (readlines (text_of_lines ex_rxn_header ++ concat texts)) =
+     ([(Some (L "test rxn"), [(L "k", L "v" ++ [nl] ++ L "w")])], Exhausted)) /\
+  (exists texts, mapM (fun x => erdf_rxn_text true (ri_rxn x) (meta_of (ri_entries x))) [ex_rxn_in3] = Ok texts /\
+     rdf_read (option str) ex_build ex_build_rxn 200 (readlines (text_of_lines ex_rxn_header ++ concat texts)) =
+     ([(Some (L "test rxn"), [(L "k", L "v" ++ [nl] ++ L "w")])], Exhausted)).
+Proof.
+  assert (Hh : Forall (fun l => ~ In nl l /\ is_fmt l = false /\ startswith (L "$RXN") l = false) ex_rxn_header).
+  { repeat constructor; try reflexivity; apply nl_not_in_lit; reflexivity. }
+  destruct ex_rxn_files_wf as [W2 W3]. split.
+  - destruct (rdf_v2000_rxn_file_roundtrip (option str) ex_build ex_build_rxn 200 true ex_rxn_header [ex_rxn_in2] Hh (Forall_cons _ W2 (Forall_nil _))) as [texts [H1 H2]].
+    exists texts. split; [exact H1|]. rewrite H2. vm_compute. reflexivity.
+  - destruct (erdf_v3000_rxn_file_roundtrip (option str) ex_build ex_build_rxn 200 true ex_rxn_header [ex_rxn_in3] Hh (Forall_cons _ W3 (Forall_nil _))) as [texts [H1 H2]].
+    exists texts. split; [exact H1|]. rewrite H2. vm_compute. reflexivity.
+Qed.
